@@ -192,6 +192,53 @@ func (m c18mon) variadic(i int, ts []int) {
 	if !sameAs(s, sm) {
 		m.fail(data, "HasAll/HasAny modified the receiver")
 	}
+	if len(ts) == 0 {
+		// no items, passed in every form: no arguments at all, a nil slice, an
+		// empty non-nil slice, an empty slice with spare capacity
+		spare := make([]int, 0, 4)
+		for form, f := range map[string]func() (bool, bool){
+			"no arguments":              func() (bool, bool) { return s.HasAll(), s.HasAny() },
+			"nil slice":                 func() (bool, bool) { return s.HasAll([]int(nil)...), s.HasAny([]int(nil)...) },
+			"empty non-nil slice":       func() (bool, bool) { return s.HasAll([]int{}...), s.HasAny([]int{}...) },
+			"empty slice with capacity": func() (bool, bool) { return s.HasAll(spare...), s.HasAny(spare...) },
+		} {
+			if all, any := f(); !all || any {
+				m.fail(data, "with no items (%s): HasAll = %v want true, HasAny = %v want false", form, all, any)
+			}
+		}
+		r, _ := c18mk(i)
+		r.Add([]int{}...)
+		r.Remove(spare...)
+		if !sameAs(r, sm) {
+			m.fail(data, "Add/Remove of an empty non-nil item list changed the set: %v", r)
+		}
+		if n := mapset.New([]int{}...); n == nil || len(n) != 0 {
+			m.fail(data, "New(empty non-nil list) = %v (nil=%v)", n, n == nil)
+		}
+	}
+	{
+		// the set used as its own argument
+		self, _ := c18mk(i)
+		if self != nil || i == 0 {
+			if !self.Equals(self) || !self.IsSubset(self) || self.Intersects(self) != (sm != 0) {
+				m.fail(data, "a set compared with itself: Equals=%v IsSubset=%v Intersects=%v", self.Equals(self), self.IsSubset(self), self.Intersects(self))
+			}
+			self.AddAll(self)
+			if !sameAs(self, sm) {
+				m.fail(data, "s.AddAll(s) changed the set: %v", self)
+			}
+			if in := mapset.Intersect(self, self, self); !sameAs(in, sm) {
+				m.fail(data, "Intersect(s, s, s) = %v", in)
+			}
+			if !self.HasAll(self.Slice()...) {
+				m.fail(data, "s.HasAll(s.Slice()...) is false")
+			}
+			self.RemoveAll(self)
+			if len(self) != 0 {
+				m.fail(data, "s.RemoveAll(s) leaves %v", self)
+			}
+		}
+	}
 	{
 		r, _ := c18mk(i)
 		ret := r.Add(ts...)
